@@ -91,7 +91,8 @@ def numpy_jacobian(f, x):
     m, n = realify(y0).size, xr.size
 
     def g(v):
-        return realify(f(unreal(v, x) if onp.ndim(x) or onp.iscomplexobj(x) else float(v[0])))
+        # (a 0-d ARRAY stays a 0-d array: x[()] and x[None] are valid for it, not for a Python float)
+        return realify(f(unreal(v, x) if onp.ndim(x) or onp.iscomplexobj(x) or isinstance(x, onp.ndarray) else float(v[0])))
     base = g(xr)
     # affine test: g(x + d1 + d2) - g(x + d1) - g(x + d2) + g(x) == 0 for two generic directions, and homogeneity
     rs = onp.random.RandomState(7)
@@ -175,6 +176,10 @@ def observe(cfg):
         obs["status"] = "numpy_rejects:" + type(ex).__name__
         return obs
     obs["exact"] = bool(exact)
+    try:
+        out_is_array = isinstance(info.get("f_numpy", f)(x), onp.ndarray)      # a 0-d ARRAY result takes a 0-d array cotangent, a float a float
+    except Exception:     # noqa
+        out_is_array = False
     single = bool(info.get("single"))
     ts = 2.0 ** -10 if single else 1.0          # single-precision operands: entries compared at 2^-10 relative
     obs["in"] = struct(x)
@@ -201,7 +206,7 @@ def observe(cfg):
             gc = onp.conj(g)
             if isinstance(gc, onp.ndarray):
                 gc.flags.writeable = False
-            garg = gc if onp.ndim(y0) or onp.iscomplexobj(y0) else float(onp.real(gc))
+            garg = gc if onp.ndim(y0) or onp.iscomplexobj(y0) or out_is_array else float(onp.real(gc))
             try:
                 r = vjp(garg)
             except Exception as ex:     # noqa
@@ -279,7 +284,7 @@ def observe(cfg):
         for tvec in basis(x):
             if isinstance(tvec, onp.ndarray):
                 tvec.flags.writeable = False
-            val, t = make_jvp(f)(xin)(tvec if onp.ndim(x) or onp.iscomplexobj(x) else float(onp.real(tvec)))
+            val, t = make_jvp(f)(xin)(tvec if onp.ndim(x) or onp.iscomplexobj(x) or isinstance(x, onp.ndarray) else float(onp.real(tvec)))
             if has_box(val) or has_box(t):
                 j["box"] = True
             j["primal_eq"] = j["primal_eq"] and bool(onp.shape(val) == onp.shape(y0) and onp.allclose(onp.asarray(val), y0, rtol=1e-12, atol=0, equal_nan=True))
@@ -315,13 +320,13 @@ def observe(cfg):
             c1, c2 = rs.randint(-3, 4, m).astype(float), rs.randint(-3, 4, m).astype(float)
             a_, b_ = 2.0, -3.0
             g12 = unreal(a_ * c1 + b_ * c2, y0)
-            lhs = realify(onp.conj(vjp(onp.conj(g12) if onp.ndim(y0) or onp.iscomplexobj(y0) else float(onp.real(g12)))))
+            lhs = realify(onp.conj(vjp(onp.conj(g12) if onp.ndim(y0) or onp.iscomplexobj(y0) or out_is_array else float(onp.real(g12)))))
             rhs = (a_ * c1 + b_ * c2) @ RR
             adj["lin_vjp"] = int(onp.sum(onp.abs(lhs - rhs) / onp.maximum(1.0, onp.abs(rhs)) > (1e-3 if single else 1e-10)))
         if FR is not None and n > 0:
             c1, c2 = rs.randint(-3, 4, n).astype(float), rs.randint(-3, 4, n).astype(float)
             v12 = unreal(2.0 * c1 - 3.0 * c2, x)
-            t = make_jvp(f)(xin)(v12 if onp.ndim(x) or onp.iscomplexobj(x) else float(onp.real(v12)))[1]
+            t = make_jvp(f)(xin)(v12 if onp.ndim(x) or onp.iscomplexobj(x) or isinstance(x, onp.ndarray) else float(onp.real(v12)))[1]
             rhs = FR @ (2.0 * c1 - 3.0 * c2)
             adj["lin_jvp"] = int(onp.sum(onp.abs(realify(t) - rhs) / onp.maximum(1.0, onp.abs(rhs)) > (1e-3 if single else 1e-10)))
     except Exception as ex:     # noqa
@@ -334,7 +339,7 @@ def observe(cfg):
         if RR is not None and m > 0 and not v.get("late"):
             c1 = rs.randint(-3, 4, m).astype(float)
             gdir = onp.conj(unreal(c1, y0))
-            sc_out = not (onp.ndim(y0) or onp.iscomplexobj(y0))
+            sc_out = not (onp.ndim(y0) or onp.iscomplexobj(y0) or out_is_array)
             gdir = float(onp.real(gdir)) if sc_out else gdir
             g0 = 0.0 if sc_out else onp.zeros_like(gdir)
             rhs = c1 @ RR
@@ -348,7 +353,7 @@ def observe(cfg):
         if FR is not None and n > 0:
             c1 = rs.randint(-3, 4, n).astype(float)
             vdir = unreal(c1, x)
-            sc_in = not (onp.ndim(x) or onp.iscomplexobj(x))
+            sc_in = not (onp.ndim(x) or onp.iscomplexobj(x) or isinstance(x, onp.ndarray))
             vdir = float(onp.real(vdir)) if sc_in else vdir
             v0 = 0.0 if sc_in else onp.zeros_like(vdir)
             rhs = FR @ c1
